@@ -14,6 +14,7 @@ import io
 import itertools
 import xml.etree.ElementTree as ET
 
+from mc import refserver
 from mc.core import Outcome, SubCheck
 from mc.product import Concat, Mapped, Product
 from props import doccommon as dc
@@ -81,11 +82,18 @@ TEMPLATES = [
      '<switch id="sw"><g id="g1" transform="skewY(3)" opacity="0.5"><line id="l1" x1="0" y1="0" x2="5%%" y2="5%%" stroke="red" stroke-width="1"/></g></switch>'
      '<use id="u1" xlink:href="#sym" x="40" y="40" width="20" height="20"/>'
      '<svg id="s2" x="5" y="30" width="40" height="16" viewBox="0 0 80 30"><rect id="r2" x="10%%" y="10%%" width="50%%" height="50%%" stroke="red" stroke-width="2%%"/></svg>'
+     # an element that is ALREADY in error in the base document (data cut off after a command letter: rendered up to
+     # the error) right behind a path that takes faults: how it is returned must not depend on its neighbour's fault
+     '<path id="pa" d="M1,1 L5,1 L5,5" fill="none" stroke="#111"/>'
+     '<path id="trunc" d="M 100,100 L 140,100 L 140,130 L" fill="none" stroke="green"/>'
+     '<polyline id="odd" points="0,0 10,10 20" fill="none" stroke="#222"/>'
      '<rect id="last" x="50%%" y="50%%" width="25%%" height="25%%" stroke="black" stroke-width="1%%"/></svg>') % NS,
 ]
 
 MENU = {
-    "path": ["h", "M0,0 h", "A 1 1 0 0 0 1 1", "M0 0 L 1", "M0,0 a 1 1 0 2 0 1 1", "x", "", "M0,0 L5,5 Q", "z"],
+    "path": ["h", "M0,0 h", "A 1 1 0 0 0 1 1", "M0 0 L 1", "M0,0 a 1 1 0 2 0 1 1", "x", "", "M0,0 L5,5 Q", "z",
+             # a close where a number is due
+             "M0,0 L 3 z", "M0,0 H z", "M 5 z", "M0,0 C 1 1 2 z"],
     "transform": ["rotate()", "matrix(1 2 3)", "matrix(1)", "scale(a)", "translate(", "skewX()", "rotate(1 2 3 4)", "foo(1)",
                   "scale()", "matrix(1,2,3,4,5,6,7)", "rotate(1,2)", "translate(1cm,2%)", "scale(0)"]
                  + ["%s(%s)" % (f, a) for f in ("matrix", "translate", "translateX", "translateY", "scale", "scaleX", "scaleY",
@@ -106,6 +114,7 @@ MENU = {
     "display": ["", "NONE", "bogus"],
     "other": ["", "é", "url(#nope)"],
 }
+STYLE_PROPS = {"transform", "fill", "stroke", "fill-opacity", "stroke-opacity", "opacity"}
 LENGTH_ATTRS = {"x", "y", "width", "height", "cx", "cy", "r", "rx", "ry", "x1", "y1", "x2", "y2", "stroke-width", "font-size"}
 
 
@@ -179,14 +188,23 @@ def enumerate_faults(root):
                 continue
             for v in MENU[t]:
                 faults.append((eid, k, v, t))
+            # the same property supplied through the style attribute (which wins over the presentation attribute):
+            # the first values of its menu, spelled as a declaration
+            a = k.split("}")[-1]
+            if t in ("transform", "color", "opacity") and a in STYLE_PROPS:
+                for v in MENU[t][:5]:
+                    faults.append((eid, "style", "%s: %s" % (a, v), t + "-style"))
     return faults
 
 
 def apply_faults(text, fl):
     root = ET.fromstring(text)
     byid = {e.get("id"): e for e in root.iter()}
-    for (eid, k, v, _) in fl:
+    for (eid, k, v, kind) in fl:
         byid[eid].set(k, v)
+        if kind.endswith("-style"):
+            # style only: the presentation attribute of the same name is taken away
+            byid[eid].attrib.pop(v.split(":")[0], None)
     return root
 
 
@@ -267,6 +285,8 @@ class Faults(SubCheck):
         self.name = name
         self.cases_ = cases
         self._clean = {}
+        # the reference documents (faulty elements removed) are parsed in a process that never parses a faulty one
+        self._ref = refserver.RefServer(lambda text: (observe(svg, text), list(getattr(observe, "ids", []))))
 
     def size(self):
         return len(self.cases_)
@@ -307,15 +327,14 @@ class Faults(SubCheck):
             return out
         fids = list(getattr(observe, "ids", []))
         try:
-            robs = observe(svg, serialize(rroot))
-            rids = list(getattr(observe, "ids", []))
+            robs, rids = self._ref.call(serialize(rroot))
         except Exception as e:  # noqa
             out.fail("HARNESS: the document without the faulty element does not parse: %r" % e, harness=True)
             return out
         ex = excluded_ids(clean_root, fl)
         cobs = self._clean.get(ti)
         if cobs is None:
-            cobs = self._clean[ti] = observe(svg, text)
+            cobs = self._clean[ti] = self._ref.call(text)[0]
         if fobs != cobs or any(f[3] == "href" for f in fl):
             out.nontrivial.append(ftext)
         out.outcome = (len(fobs), len(robs))
